@@ -9,6 +9,11 @@ A. surface lattice  — every (n,m) term alone, every pair of terms, the full 25
    preset list; polar -> Cartesian -> polar reproduces the surface; merge adds surfaces; analytic polar
    and Cartesian gradients = wavelength x autograd derivative of the library's own surface and = an
    independent per-term closed form (Wirtinger form for the Cartesian one).
+A2. label-order lattice — the Cartesian basis for every preset as given and reversed, every ordered pair of distinct labels
+   (both orders), fixed non-monotone and seeded permutations of the full 25-label set: every COLUMN equals the single-label
+   evaluation of its label and the closed form (a basis function must not depend on its position in the list), and the
+   expansion on the permuted list equals the polar surface of the converted coefficients; the least-squares fit returns the
+   same coefficients for a flat list / list-of-lists group and for the same labels in any other order.
 B. alias lattice    — every alias x every entry point that takes a user coefficient dictionary x
    d in {+-50, +-123}: the call with {alias: d} must give the same observable result as the call with
    the canonical symbol ({"defocus": d} == {"C10": -d}).
@@ -40,7 +45,8 @@ TECHNIQUE = "exhaustive coefficient/alias/fit lattices on the real functions; au
 CLAIM = (
     "For every single (n,m) term, every pair of terms and the full 25-symbol set over the stated value/angle/wavelength "
     "alphabets, on a 9x14 angle-azimuth grid that determines any function of the series' class, the polar surface, the "
-    "Cartesian-basis expansion (all 25 labels and every preset list), both conversions and merge_aberration_coefficients "
+    "Cartesian-basis expansion (all 25 labels and every preset list, in any label order: each basis column equals the "
+    "single-label evaluation whatever its position), both conversions and merge_aberration_coefficients "
     "describe the same function to 1e-12 relative, and the analytic polar and Cartesian gradients equal the wavelength times "
     "the autograd derivative of the library's own surface and an independent per-term closed form. Every alias at every entry "
     "point that accepts a user coefficient dictionary gives the same observable result as the canonical symbol "
@@ -56,7 +62,9 @@ NOTE = (
 )
 RULE = (
     "Full Cartesian lattices: (A) every single term, unordered pair, same-term merge pair and full 25-symbol set x value x "
-    "angle x wavelength alphabets; (B) entry point x alias x value; (C) detector shape x mask x C10 x C12 x phi12 x rotation "
+    "angle x wavelength alphabets, and the label ORDER of the Cartesian basis: every preset as given and reversed, every ordered "
+    "pair of distinct labels, 7 permutations of the 25 labels, 5 least-squares-fit basis forms (non-trivial: the list is not "
+    "ascending in radial order); (B) entry point x alias x value; (C) detector shape x mask x C10 x C12 x phi12 x rotation "
     "inside |C12|<|C10|, |rotation|<pi/2. A point is non-trivial when the surface is not identically zero (A), when the "
     "canonical call differs observably from the call without the coefficient (B), or always (C); distinct = distinct "
     "coefficient set / entry-alias-value / fit point."
@@ -401,6 +409,174 @@ def describe(item):
     if len(cs) > 4:
         return one(cs[:3]) + f", ... ({len(cs)} terms)"
     return one(cs)
+
+
+# ----------------------------------------------------------------------------- part A2: label ORDER of the Cartesian basis
+# The basis function of a label must not depend on its position in the list handed to
+# aberration_surface_cartesian_basis (callers may pass reversed / shuffled presets, custom lists and list-of-lists groups).
+def _radial_order(label):
+    return int(label[1])
+
+
+def order_lists(ctx):
+    """(name, labels) for every enumerated label list: presets as given and reversed, every ordered pair of distinct
+    labels (both orders), fixed non-monotone permutations of the full 25-label set, seeded permutations."""
+    from quantem.diffractive_imaging.direct_ptycho_utils import ABERRATION_PRESETS
+
+    out = []
+    for name in sorted(ABERRATION_PRESETS):
+        L = list(ABERRATION_PRESETS[name])
+        out.append((f"preset {name}", L))
+        out.append((f"preset {name} reversed", L[::-1]))
+    full = list(MY_CART)
+    out.append(("all reversed", full[::-1]))
+    out.append(("all odd-even interleave", full[1::2] + full[0::2]))
+    out.append(("all rotated by 7", full[7:] + full[:7]))
+    out.append(("all descending order, ascending within an order", sorted(full, key=lambda l: (-_radial_order(l), full.index(l)))))
+    out.append(("all alternating high/low", [x for pair in zip(full[::-1], full) for x in pair][:25]))
+    for j in range(2):
+        perm = ctx.rng(2, j).permutation(len(full))
+        out.append((f"all seeded permutation {j}", [full[int(i)] for i in perm]))
+    pairs = [(f"pair", [a, b]) for a, b in itertools.permutations(full, 2)]
+    return out, pairs
+
+
+_SINGLE_CACHE = {}
+
+
+def _single_basis(label, lam):
+    from quantem.diffractive_imaging import complex_probe as cp
+
+    k = (label, lam)
+    if k not in _SINGLE_CACHE:
+        _SINGLE_CACHE[k] = _np(cp.aberration_surface_cartesian_basis(_t(A2), _t(P2), lam, [label])[..., 0])
+    return _SINGLE_CACHE[k]
+
+
+def _label_closed_form(label, lam):
+    n, m = int(label[1]), int(label[2])
+    kind = label[4:] if "_" in label else ""
+    ang = np.ones_like(A2) if kind == "" else (np.cos(m * P2) if kind == "a" else np.sin(m * P2))
+    return 2 * np.pi / lam * A2 ** (n + 1) / (n + 1) * ang
+
+
+def _balanced_cart():
+    amax = float(ALPHA.max())
+    cs = [[n, m, (-1) ** k * 1234.5 / amax ** (n - 1), (0.37 if m else None)] for k, (n, m) in enumerate(TERMS)]
+    return ref_cart_coefs(cs)
+
+
+def order_relations(labels, lam):
+    from quantem.diffractive_imaging import complex_probe as cp
+
+    A, P = _t(A2), _t(P2)
+    amax = float(ALPHA.max())
+    B = _np(cp.aberration_surface_cartesian_basis(A, P, lam, list(labels)))
+    out = []
+    if B.shape != (*A2.shape, len(labels)):
+        return [("basis_has_one_column_per_label", float("inf"), f"shape {B.shape}")], None
+    cart = _balanced_cart()
+    chi_exp = np.zeros_like(A2)
+    sc_tot = 0.0
+    w1 = w2 = 0.0
+    d1 = d2 = ""
+    for i, l in enumerate(labels):
+        n = _radial_order(l)
+        sc = 2 * np.pi / lam * amax ** (n + 1) / (n + 1)
+        e1 = rel(B[..., i], _single_basis(l, lam), sc)
+        e2 = rel(B[..., i], _label_closed_form(l, lam), sc)
+        if e1 > w1:
+            w1, d1 = e1, f"column {i} ({l})"
+        if e2 > w2:
+            w2, d2 = e2, f"column {i} ({l})"
+        chi_exp = chi_exp + B[..., i] * cart[l]
+        sc_tot += abs(cart[l]) * sc
+    out.append(("basis_column_independent_of_position", w1, d1))
+    out.append(("basis_column_equals_closed_form", w2, d2))
+    # polar surface of the converted coefficients == basis x coefficients on the permuted list
+    sub = {l: _t(cart[l]) for l in labels}
+    polar = cp.cartesian_to_polar_aberrations(sub)
+    chi_pol = _np(cp.aberration_surface(A, P, lam, polar))
+    out.append(("cartesian_expansion_equals_polar_surface", rel(chi_exp, chi_pol, sc_tot or 1.0), ""))
+    return out, chi_exp / (sc_tot or 1.0)
+
+
+def eval_label_order(item):
+    """item = {"family": "label_order", "name", "labels", "lam"}"""
+    t = Tally()
+    labels = item["labels"]
+    orders = [_radial_order(l) for l in labels]
+    nonmono = any(b < a for a, b in zip(orders, orders[1:]))
+    try:
+        rels, sig = order_relations(labels, item["lam"])
+    except Exception as e:
+        t.case(key=item, nontrivial=True, outcome="raised")
+        t.fail({"part": "surface", "relation": "evaluates_without_error", "family": "label_order"}, item, f"basis for label list {labels}: raised {type(e).__name__}: {e}")
+        return t
+    for name, err, detail in rels:
+        if not (err <= TOL64):
+            t.fail(
+                {"part": "surface", "relation": name, "family": "label_order"},
+                item,
+                f"{name} {detail}: relative deviation {err:.3e} > {TOL64:g} for the label list {item['name']} {labels if len(labels) <= 6 else str(labels[:6])[:-1] + ', ...]'} (wavelength {item['lam']:.5f} A)",
+            )
+    t.case(key=[labels, item["lam"]], nontrivial=nonmono, outcome=None if sig is None else [round(float(x), 9) for x in sig.ravel()[[13, 57, 125]]])
+    t.extra["label_lists"] += 1
+    t.extra["label_lists_not_ascending"] += int(nonmono)
+    t.extra["relations_evaluated"] += len(rels)
+    if item["name"] in ("all rotated by 7", "preset low_order reversed") and item["lam"] == _lams()[0]:
+        t.sample({"family": "label_order", "list": item["name"], "labels": labels[:8], "worst_relative_deviation": max(e for _, e, _ in rels)}, cap=1)
+    return t
+
+
+# the same, through the least-squares fit: it accepts flat lists (kept in the given order for fit_method="global") and
+# list-of-lists groups; the fitted coefficients must not depend on the order of the labels inside a group
+ORDER_FIT_VARIANTS = [
+    ("list-of-lists, one group", [["C10", "C12_a", "C12_b", "C30"]], [["C30", "C10", "C12_a", "C12_b"]], "global"),
+    ("list-of-lists, two groups", [["C10", "C12_a", "C12_b"], ["C21_a", "C21_b", "C30"]], [["C12_b", "C12_a", "C10"], ["C30", "C21_b", "C21_a"]], "global"),
+    ("flat list, global", ["C10", "C12_a", "C12_b", "C21_a", "C21_b", "C30"], ["C30", "C21_b", "C21_a", "C12_b", "C12_a", "C10"], "global"),
+    ("flat list, recursive", ["C10", "C12_a", "C12_b", "C21_a", "C21_b", "C30"], ["C30", "C21_b", "C12_b", "C10", "C21_a", "C12_a"], "recursive"),
+    ("flat list, sequential", ["C10", "C12_a", "C12_b", "C21_a", "C21_b", "C30"], ["C21_b", "C30", "C12_b", "C10", "C21_a", "C12_a"], "sequential"),
+]
+# float32 lstsq with permuted columns: worst observed difference 6.5e-7 relative (11 seeds x 5 forms); a column with the wrong
+# radial power changes C10 by > 10 x |C10|.
+TOL_ORDER = 1e-3
+
+
+def fit_order_case(case, verbose=False):
+    def run_fit(basis):
+        with quiet():
+            dp = make_dp({"C10": -100.0}, case["seed"])
+            dp.fit_hyperparameters_least_squares(cartesian_basis=[list(g) if isinstance(g, list) else g for g in basis], fit_method=case["fit_method"], verbose=0)
+        return {k: float(v) for k, v in dp.hyperparameter_state.optimized_aberrations.items()}, dp.corrected_bf.detach().numpy().copy()
+
+    ca, ra = run_fit(case["basis_ascending"])
+    cb, rb = run_fit(case["basis_permuted"])
+    sc = max(abs(ca.get("C10", 0.0)), 1e-30)
+    errs = {k: abs(ca.get(k, 0.0) - cb.get(k, 0.0)) / sc for k in ("C10", "C12")}
+    errs["corrected_bf"] = float(np.max(np.abs(ra - rb))) / max(float(np.max(np.abs(ra))), 1e-30)
+    fails = []
+    bad = [k for k, v in errs.items() if not (v <= TOL_ORDER)]
+    if bad:
+        fails.append(({"part": "surface", "family": "label_order", "relation": "least_squares_fit_independent_of_label_order"}, f"fit_hyperparameters_least_squares({case['name']}, fit_method={case['fit_method']!r}): basis {case['basis_permuted']} gives {cb}, the same labels in ascending order {case['basis_ascending']} give {ca} (relative differences {errs})"))
+    if verbose:
+        print(f"  ascending {case['basis_ascending']}: {ca}\n  permuted  {case['basis_permuted']}: {cb}\n  relative differences {errs}")
+    return fails, errs, ca
+
+
+def eval_fit_order(case):
+    t = Tally()
+    try:
+        fails, errs, ca = fit_order_case(case)
+    except Exception as e:
+        t.case(key=case, nontrivial=True, outcome="raised")
+        t.fail({"part": "surface", "family": "label_order", "relation": "least_squares_fit_accepts_label_order"}, case, f"fit_hyperparameters_least_squares({case['name']}) with {case['basis_permuted']}: raised {type(e).__name__}: {e}")
+        return t
+    t.case(key=[case["name"], case["seed"]], nontrivial=True, outcome=[round(ca.get("C10", 0.0), 2), round(ca.get("C12", 0.0), 2)])
+    for cls, msg in fails:
+        t.fail(cls, case, msg)
+    t.extra["fit_order_points"] += 1
+    return t
 
 
 def single_states(n, m, values, quick_pairs=False, with_absent=False):
@@ -1046,6 +1222,24 @@ def run(ctx):
     items = build_surface_items(ctx)
     ctx.say(f"part A: {len(items)} coefficient sets x ~20 relations on a 9x14 float64 grid")
     mA = ctx.pmap(eval_surface, items, label="surface")
+    # ---- A2: label order
+    lists, pairs = order_lists(ctx)
+    lams = _lams()
+    oitems = [{"family": "label_order", "name": nm, "labels": L, "lam": lam} for (nm, L), lam in itertools.product(lists, lams)]
+    oitems += [{"family": "label_order", "name": nm, "labels": L, "lam": lams[0]} for nm, L in pairs]
+    mO = ctx.pmap(eval_label_order, oitems, label="label order")
+    have_lsq = entry_points()["fit_hyperparameters_least_squares"][1]
+    if have_lsq:
+        fo = [
+            {"part": "fit_order", "name": nm, "basis_ascending": a, "basis_permuted": b, "fit_method": fm, "seed": ctx.seed + k}
+            for (nm, a, b, fm), k in itertools.product(ORDER_FIT_VARIANTS, range(2 if ctx.quick else 6))
+        ]
+        mFO = ctx.pmap(eval_fit_order, fo, chunk=1, label="label order in the least-squares fit")
+    else:
+        ctx.seam_missing.append("fit_hyperparameters_least_squares (label order checked on the basis function only)")
+        mFO = Tally()
+    if mO.extra["label_lists_not_ascending"] < 200:
+        raise Broken(f"label-order lattice degenerate: only {mO.extra['label_lists_not_ascending']} lists are not ascending in radial order")
     # ---- B
     eps = entry_points()
     aitems = build_alias_items(ctx, eps)
@@ -1076,6 +1270,7 @@ def run(ctx):
             "angles": "{0, 0.37, -1.1, pi/m}" + (" (pairs: {0.37, pi/m})" if ctx.quick else "") + "; singles also with the angle key absent",
             "wavelengths_A": _lams(),
             "grid": "9 angles in [0, 0.03] rad x 14 azimuths in [-3.1, 3.1]",
+            "label_order": [nm for nm, _ in lists] + ["every ordered pair of distinct labels (600)"] + [f"least-squares fit: {v[0]} ({v[3]})" for v in ORDER_FIT_VARIANTS],
             "aliases": {a: f"{v[0]} x {v[1]:+g}" for a, v in MY_ALIASES.items()},
             "alias_values_d": DVALS,
             "entry_points": [n for n, v in eps.items() if v[1]],
@@ -1083,6 +1278,9 @@ def run(ctx):
         },
         bounds={"tolerance_float64": TOL64, "tolerance_alias": TOL_ALIAS, "tolerance_fit": TOL_FIT, "tolerance_rotation": TOL_ROT},
         sets_surface=int(mA.n),
+        label_lists=int(mO.n),
+        label_lists_not_ascending=int(mO.extra["label_lists_not_ascending"]),
+        fit_order_points=int(mFO.n),
         alias_points=int(mB.n),
         fit_points=int(mC.n),
         private_shift_points=int(mP.n),
@@ -1114,6 +1312,17 @@ def replay(ctx, case):
             ctx.fail(f["cls"], case, f["msg"])
     elif part == "naming":
         static_checks(ctx)
+    elif part == "fit_order":
+        fails, errs, ca = fit_order_case(case, verbose=True)
+        for cls, msg in fails:
+            ctx.fail(cls, case, msg)
+    elif case.get("family") == "label_order":
+        rels = order_relations(case["labels"], case["lam"])[0]
+        print(f"  label list ({case['name']}): {case['labels']}  wavelength {case['lam']}")
+        for name, err, detail in rels:
+            print(f"    {name:45s} {detail:22s} relative deviation {err:.3e}  (tolerance {TOL64:g})")
+        for f in eval_label_order(case).fails:
+            ctx.fail(f["cls"], case, f["msg"])
     else:
         t = eval_surface(case)
         if case.get("family") == "merge":
